@@ -219,3 +219,83 @@ func c04BinaryHistory(cfg kit.WorldCfg, ids []string) kit.History {
 	}
 	return h
 }
+
+// ---- a reference kept in a nested bucket of the entity (fk symbol registered with a bucket path prefix) ----
+
+type c04GadgetStrategy struct{}
+
+func (c04GadgetStrategy) NewEntity() *c04Paper { return &c04Paper{c04Doc: c04Doc{Type: "gadgets"}} }
+func (c04GadgetStrategy) FillEntity(p *c04Paper, b *boltz.TypedBucket) {
+	p.Title = b.GetStringWithDefault("title", "")
+	if d := b.GetBucket("details"); d != nil {
+		p.Owner = d.GetString("owner")
+	}
+}
+func (c04GadgetStrategy) PersistEntity(p *c04Paper, ctx *boltz.PersistContext) {
+	ctx.SetString("title", p.Title)
+	ctx.Bucket.GetOrCreatePath("details").SetStringP("owner", p.Owner, ctx.FieldChecker)
+}
+
+// c04PrefixedReference: gadgets keep their (nullable, restricting) reference to an owner under details/owner.
+func c04PrefixedReference(ownerIDs []string) error {
+	z := kit.NewZDB()
+	defer z.Close()
+	owners := boltz.NewBaseStore(boltz.StoreDefinition[*c04Doc]{EntityType: "owners", EntityStrategy: c04DocStrategy{typ: "owners"}, BasePath: []string{"root"}})
+	owners.InitImpl(owners)
+	owners.AddIdSymbol("id", ast.NodeTypeString)
+	gadgets := boltz.NewBaseStore(boltz.StoreDefinition[*c04Paper]{EntityType: "gadgets", EntityStrategy: c04GadgetStrategy{}, BasePath: []string{"root"}})
+	gadgets.InitImpl(gadgets)
+	gadgets.AddIdSymbol("id", ast.NodeTypeString)
+	ownerSym := gadgets.AddFkSymbol("owner", owners, "details")
+	gadgets.AddNullableFkIndex(ownerSym, owners.AddFkSetSymbol("gadgets", gadgets))
+	update := func(f func(ctx boltz.MutateContext) error) error { return z.Db.Update(kit.NewCtx(), f) }
+	if err := update(func(ctx boltz.MutateContext) error {
+		holder := &errorz.ErrorHolderImpl{}
+		owners.InitializeIndexes(ctx.Tx(), holder)
+		gadgets.InitializeIndexes(ctx.Tx(), holder)
+		return holder.GetError()
+	}); err != nil {
+		return fmt.Errorf("prefixed reference: initialising indexes: %v", err)
+	}
+	missing := "no-such-owner"
+	if err := update(func(ctx boltz.MutateContext) error {
+		return gadgets.Create(ctx, &c04Paper{c04Doc: c04Doc{Id: "g-missing", Title: "t", Type: "gadgets"}, Owner: &missing})
+	}); err == nil || !boltz.IsErrNotFoundErr(err) {
+		return fmt.Errorf("prefixed reference: creating a gadget whose owner (kept under details/owner) does not exist returned %v", err)
+	}
+	for i, oid := range ownerIDs {
+		oid := oid
+		gid := fmt.Sprintf("g%d", i)
+		if err := update(func(ctx boltz.MutateContext) error {
+			if err := owners.Create(ctx, &c04Doc{Id: oid, Title: "owner", Type: "owners"}); err != nil {
+				return err
+			}
+			return gadgets.Create(ctx, &c04Paper{c04Doc: c04Doc{Id: gid, Title: "t", Type: "gadgets"}, Owner: &oid})
+		}); err != nil {
+			return fmt.Errorf("prefixed reference: creating owner %q and its gadget: %v", oid, err)
+		}
+		var back []string
+		_ = z.Db.View(func(tx *bbolt.Tx) error {
+			back = owners.GetRelatedEntitiesIdList(tx, oid, "gadgets")
+			return nil
+		})
+		if fmt.Sprint(back) != fmt.Sprint([]string{gid}) {
+			return fmt.Errorf("prefixed reference: back-references of owner %q are %q, its gadget is %q", oid, back, gid)
+		}
+		if err := update(func(ctx boltz.MutateContext) error { return owners.DeleteById(ctx, oid) }); err == nil || !boltz.IsReferenceExistsError(err) {
+			return fmt.Errorf("prefixed reference: deleting owner %q, which gadget %s refers to (under details/owner), returned %v", oid, gid, err)
+		}
+		if err := update(func(ctx boltz.MutateContext) error {
+			return gadgets.Update(ctx, &c04Paper{c04Doc: c04Doc{Id: gid, Title: "t", Type: "gadgets"}, Owner: &missing}, nil)
+		}); err == nil || !boltz.IsErrNotFoundErr(err) {
+			return fmt.Errorf("prefixed reference: re-pointing gadget %s to an owner that does not exist returned %v", gid, err)
+		}
+		if err := update(func(ctx boltz.MutateContext) error { return gadgets.DeleteById(ctx, gid) }); err != nil {
+			return fmt.Errorf("prefixed reference: deleting gadget %s: %v", gid, err)
+		}
+		if err := update(func(ctx boltz.MutateContext) error { return owners.DeleteById(ctx, oid) }); err != nil {
+			return fmt.Errorf("prefixed reference: deleting owner %q, which nothing refers to any more: %v", oid, err)
+		}
+	}
+	return nil
+}
